@@ -217,6 +217,7 @@ def attr_names(v):
 def shards(tier, seed):
     specs = [{"mode": "enum", "part": i, "parts": 8} for i in range(8)]
     specs.append({"mode": "states"})
+    specs.append({"mode": "compositions"})
     specs.append({"mode": "timing", "seed": seed, "n": 60 if tier == "quick" else 600})
     n = 2500 if tier == "quick" else 40000
     for i in range(6):
@@ -230,6 +231,8 @@ def run_shard(spec, ctx):
         run_enum(spec, ctx)
     elif mode == "states":
         run_states(ctx)
+    elif mode == "compositions":
+        run_compositions(ctx)
     elif mode == "timing":
         run_timing(spec, ctx)
     elif mode == "random":
@@ -366,6 +369,116 @@ def run_states(ctx):
         ctx.case({"k": ["nocancel", how]}, True, ["nocancel:" + how], sample={"f_nocancel_input_ends_by": how, "cancel_returns": [c1, c2], "wrapper_done": nc.done()})
         for pr in problems:
             ctx.violation("C17:nocancel:%s:%s" % (how, pr), {"kind": "nocancel", "how": how}, {"problem": pr})
+
+
+def run_compositions(ctx):
+    """(4) the wrapper mirrors f's outcome also when f is itself a library future (proxy of proxy, nocancel of proxy, ...),
+    whether f ends before or after it is wrapped; (5) operation SEQUENCES on a proxy of a mutable result: every read
+    reflects the current state of the result (read, mutate, read again)."""
+    from concurrent.futures import Future
+    import io
+    import types
+    import collections
+    from more_executors import f_proxy, f_nocancel, f_map, f_return
+    from world_exc import E1, AttrErr
+    inner_kinds = {
+        "plain": lambda src: src,
+        "proxy": lambda src: f_proxy(src),
+        "proxy2": lambda src: f_proxy(f_proxy(src)),
+        "nocancel": lambda src: f_nocancel(src),
+        "map": lambda src: f_map(src, lambda x: x),
+    }
+    outer_kinds = {"nocancel": f_nocancel, "proxy": f_proxy, "map": lambda f: f_map(f, lambda x: x)}
+    hows = [("value", None), ("error", E1), ("error", AttrErr), ("error", KeyError), ("cancel", None)]
+    for (iname, imk), (oname, omk), (how, exc_cls), when in itertools.product(sorted(inner_kinds.items()), sorted(outer_kinds.items()), hows, ("before", "after")):
+        src = Future()
+        e = exc_cls("boom") if exc_cls else None
+
+        def finish():
+            if how == "value":
+                src.set_result(("v", 7))
+            elif how == "error":
+                src.set_exception(e)
+            else:
+                Future.cancel(src)
+                src.set_running_or_notify_cancel()
+
+        problems = []
+        try:
+            if when == "before":
+                finish()
+            inner = imk(src)
+            outer = omk(inner)
+            if when == "after":
+                finish()
+        except BaseException as x:
+            problems.append("construction-or-completion-raised:%s" % type(x).__name__)
+            outer = None
+        if outer is not None:
+            if not outer.done():
+                problems.append("wrapper-still-pending")
+            elif how == "value" and not (not outer.cancelled() and outer.exception() is None and outer.result() == ("v", 7)):
+                problems.append("value-not-mirrored")
+            elif how == "error" and not (not outer.cancelled() and outer.exception() is e):
+                problems.append("error-not-mirrored")
+            elif how == "cancel" and not (outer.cancelled() or outer.exception() is not None):
+                problems.append("cancel-not-mirrored")
+        key = {"k": ["compose", oname, iname, how, exc_cls.__name__ if exc_cls else None, when]}
+        ctx.case(key, True, ["compose:%s(%s)" % (oname, iname), "ends:" + how], sample={"wrapper": oname, "of": iname, "input_ends_by": how, "when": when, "problems": problems})
+        for pr in problems:
+            ctx.violation("C17:compose:%s(%s):%s:%s" % (oname, iname, how, pr),
+                          {"kind": "compose", "outer": oname, "inner": iname, "how": how, "exc": exc_cls.__name__ if exc_cls else None, "when": when}, {"problem": pr})
+    # (5) sequences
+    targets = {
+        "Obj": (lambda: Obj(3), [("get", "n"), ("get", "items"), ("call", "method", ()), ("mut", "set_n"), ("mut", "del_n"), ("mut", "append_item")]),
+        "StringIO": (lambda: io.StringIO("abc"), [("get", "closed"), ("call", "getvalue", ()), ("call", "close", ()), ("call", "tell", ())]),
+        "namespace": (lambda: types.SimpleNamespace(a=1, b=[1]), [("get", "a"), ("get", "b"), ("get", "c"), ("mut", "set_a"), ("mut", "del_a"), ("mut", "set_c")]),
+        "defaultdict": (lambda: collections.defaultdict(list, {1: [2]}), [("get", "default_factory"), ("call", "__getitem__", (5,)), ("mut", "set_factory"), ("call", "keys", ())]),
+        "list": (lambda: [3, 1, 2], [("call", "append", (9,)), ("call", "sort", ()), ("call", "pop", ()), ("call", "__len__", ()), ("call", "copy", ())]),
+    }
+    muts = {
+        "set_n": lambda o: setattr(o, "n", o.n + 10 if hasattr(o, "n") else 1), "del_n": lambda o: delattr(o, "n") if hasattr(o, "n") else None,
+        "append_item": lambda o: o.items.append(7), "set_a": lambda o: setattr(o, "a", 99), "del_a": lambda o: delattr(o, "a") if hasattr(o, "a") else None,
+        "set_c": lambda o: setattr(o, "c", "new"), "set_factory": lambda o: setattr(o, "default_factory", int),
+    }
+
+    def obs(x):
+        if isinstance(x, (types.GeneratorType,)) or type(x).__name__ in ("dict_keys",):
+            return ("view", sorted(list(x), key=repr))
+        return x
+
+    def run_seq(target, seq, through_proxy):
+        under = target()
+        subject = f_proxy(f_return(under)) if through_proxy else under
+        out = []
+        for step in seq:
+            if step[0] == "mut":
+                muts[step[1]](under)  # the result object changes behind the proxy's back
+                out.append(("mut", step[1]))
+            elif step[0] == "get":
+                o = outcome(lambda t: getattr(t, step[1]), subject)
+                out.append((o[0], o[1], obs(o[2]) if o[0] == "ok" else None))
+            else:
+                o = outcome(lambda t: getattr(t, step[1])(*step[2]), subject)
+                out.append((o[0], o[1], obs(o[2]) if o[0] == "ok" else None))
+        return out
+
+    n = 0
+    for tname, (target, alphabet) in sorted(targets.items()):
+        for L in (1, 2, 3):
+            for seq in itertools.product(alphabet, repeat=L):
+                plain = run_seq(target, seq, False)
+                prox = run_seq(target, seq, True)
+                n += 1
+                ok = repr(plain) == repr(prox)
+                nt = L >= 2 and any(s[0] == "mut" or s[1] in ("close", "append", "sort", "pop", "__getitem__") for s in seq[:-1])
+                ctx.case({"k": ["seq", tname, [list(x[:2]) for x in seq]]}, nt, ["seq:" + tname, "len:%d" % L],
+                         sample={"target": tname, "sequence": [list(x[:2]) for x in seq], "plain": brief(plain), "proxy": brief(prox)})
+                if not ok:
+                    last = [i for i, (a, b) in enumerate(zip(plain, prox)) if repr(a) != repr(b)][0]
+                    ctx.violation("C17:sequence:%s:%s-after-%s" % (tname, seq[last][1], "+".join(x[1] for x in seq[:last]) or "nothing"),
+                                  {"kind": "seq", "target": tname, "seq": [list(x) for x in seq]}, {"plain": brief(plain), "proxy": brief(prox)})
+    ctx.exhaustive.append({"domain": "operation sequences (length <= 3) on proxies of mutable results", "size": n, "complete": True})
 
 
 def timing_case(op_name, t_complete, timeout, how):
@@ -528,6 +641,8 @@ def replay(case):
     elif k == "timing":
         viols, out = eval_timing(case)
         return [{"signature": s, "detail": {"observed": repr(d)}} for s, d in viols]
+    elif k in ("compose", "seq"):
+        run_compositions(ctx)
     else:
         run_states(ctx)
     return [{"signature": s, "detail": v["detail"]} for s, v in ctx._viol.items()]
